@@ -15,7 +15,8 @@ VERIF = os.path.dirname(os.path.dirname(os.path.dirname(os.path.abspath(__file__
 REPO = os.environ.get("VERIF_REPO", "/repo")
 BUILD = os.path.join(VERIF, ".build")
 MIRDIR = os.path.join(BUILD, "mir")
-QDIR = os.path.join(BUILD, "mirsmt")
+QROOT = os.path.join(BUILD, "mirsmt")
+QDIR = os.path.join(QROOT, f"run-{os.getpid()}")     # per process: concurrent runs must not overwrite each other's query files
 REPLAY_SRC = os.path.join(VERIF, "replay")
 TIMEOUTS = {"quick": 120, "thorough": 900}
 SOLVERS = [("z3-new", ["z3-new"]), ("z3", ["/usr/bin/z3"]), ("cvc5", ["cvc5", "--lang", "smt2"])]
@@ -118,6 +119,9 @@ def replay_bin(profile="release"):
         if profile in _bins:
             return _bins[profile]
         crate = _replay_crate()
+        lock = os.path.join(crate, "Cargo.lock")
+        if not os.path.exists(lock) and os.path.exists(os.path.join(REPO, "Cargo.lock")):
+            shutil.copy(os.path.join(REPO, "Cargo.lock"), lock)     # pin the dependency versions the repository pins (offline)
         tdir = os.path.join(BUILD, "replay-target")
         env = dict(os.environ, CARGO_NET_OFFLINE="true")
         env.pop("RUSTFLAGS", None)
@@ -154,6 +158,7 @@ class Query:
         self.timeout = timeout
         self.texts = {}
         self.emit_notes = []
+        self.cover = False      # vacuity twin: `assumptions => false` must come back SAT (the assumptions are consistent)
 
 
 class Validation:
@@ -171,6 +176,10 @@ class Validation:
         self.n = n
         self.profile = profile
         self.pre = pre                    # optional python predicate env -> bool (sample filter)
+
+
+class NotLiftable(Exception):
+    """raised by a lift() that examined the model natively and found no public-level witness; the text goes into the note"""
 
 
 class Replay:
@@ -221,6 +230,8 @@ def eval_expect(expect, answers):
         v = int(a[1 + expect["index"]])
         w = int(expect["value"])
         return {"tok_ge": v >= w, "tok_eq": v == w, "tok_ne": v != w, "tok_lt": v < w}[k]
+    if k == "tok_mod_ne":
+        return int(a[1 + expect["index"]]) % int(expect["mod"]) != int(expect["value"])
     if k == "lines_differ":
         b = answers[expect["other"]]
         return b[0] == "ok" and a[1:] != b[1:]
@@ -340,31 +351,38 @@ def validate(ob, built, rng, qdir):
         k = min(6, len(envs))
         pick = list(range(min(3, len(envs)))) + rng.sample(range(len(envs)), k - min(3, k)) if len(envs) > 3 else list(range(len(envs)))
         for mode in ("bv", "int"):
-            try:
-                goals = [S.var(f"vout{j}", o.sort) for j, o in enumerate(v.outs)]
-                link = S.And(*[S.Eq(g, o) for g, o in zip(goals, v.outs)])
-                em = S.Emit(mode, [], link, bounds={nm: v.ranges[nm] for nm in v.vars}, negate=False)
-                txt = em.text(get_model=False)
-            except NotEncodable:
-                continue
-            head = txt[:txt.rindex("(check-sat)")]
-            body = [head]
             for i in pick:
-                body.append("(push 1)")
+                try:
+                    goal = S.And(*[S.Eq(o, S.const(o.sort, expected[i][j])) for j, o in enumerate(v.outs)])
+                    if S.isconst(goal):
+                        continue
+                    em = S.Emit(mode, [], goal, bounds={nm: v.ranges[nm] for nm in v.vars})
+                    txt = em.text(get_model=False)
+                except NotEncodable:
+                    continue
+                # fix the inputs: declare-const x -> define-fun x () <sort> <value>: the solver evaluates a ground formula
                 for nm in v.vars:
-                    body.append(f"(assert (= {nm} {_lit(mode, _sort_of(v, nm), envs[i][nm])}))")
-                neq = " ".join(f"(= vout{j} {_lit(mode, o.sort, expected[i][j])})" for j, o in enumerate(v.outs))
-                body.append(f"(assert (not (and true {neq})))")
-                body.append("(check-sat)")
-                body.append("(pop 1)")
-            path = os.path.join(qdir, f"{ob.name}__val{vi}__{mode}.smt2")
-            open(path, "w").write("\n".join(body) + "\n")
-            scripts.append((path, len(pick)))
-    for path, k in scripts:
-        p = subprocess.run(["z3-new", path], capture_output=True, text=True, timeout=120)
+                    so = _sort_of(v, nm)
+                    txt = re.sub(r"\(declare-const " + re.escape(nm) + r" ([^\n]*)\)\n",
+                                 lambda m: f"(define-fun {nm} () {m.group(1)} {_lit(mode, so, envs[i][nm])})\n", txt)
+                path = os.path.join(qdir, f"{ob.name}__val{vi}_{i}__{mode}.smt2")
+                open(path, "w").write(txt)
+                scripts.append(path)
+    bad = []
+
+    def chk(path):
+        try:
+            p = subprocess.run(["z3-new", path], capture_output=True, text=True, timeout=60)
+        except subprocess.TimeoutExpired:
+            bad.append((path, "timeout"))
+            return
         res = [l for l in p.stdout.split("\n") if l.strip()]
-        if "(error" in p.stdout or res != ["unsat"] * k:
-            return False, f"solver-level validation failed ({os.path.basename(path)}): {p.stdout[:200]}", total
+        if res != ["unsat"]:
+            bad.append((path, p.stdout[:200]))
+    with ThreadPoolExecutor(max_workers=8) as pool:
+        list(pool.map(chk, scripts))
+    if bad:
+        return False, f"solver-level validation failed ({os.path.basename(bad[0][0])}): {bad[0][1]}", total
     return True, "", total
 
 
@@ -457,6 +475,15 @@ def _run_task(task, qs):
 # =================================================================================================
 def _emit_queries(ob, built, qdir):
     n = 0
+    # vacuity twins: every query that assumes something (lemma post-conditions, fixed inputs) gets a twin asking whether the
+    # assumptions + bounds are satisfiable at all; an unsat twin means the query proves nothing
+    twins = []
+    for q in built.queries:
+        if q.assumptions and not q.cover and not any(x.cover and x.name == q.name + "__cover" for x in built.queries):
+            t = Query(q.name + "__cover", q.assumptions, S.FALSE, q.bounds, q.encodings, timeout=min(q.timeout or 60, 60))
+            t.cover = True
+            twins.append(t)
+    built.queries += twins
     for q in built.queries:
         for enc in q.encodings:
             try:
@@ -542,6 +569,13 @@ def run_obligations(obs, tier, jobs):
     t_start = time.time()
     results = {}
     os.makedirs(QDIR, exist_ok=True)
+    for d in glob.glob(os.path.join(QROOT, "run-*")):      # drop query directories of processes that are gone
+        try:
+            pid = int(d.rsplit("-", 1)[1])
+            if pid != os.getpid() and not os.path.exists(f"/proc/{pid}"):
+                shutil.rmtree(d, ignore_errors=True)
+        except ValueError:
+            pass
     try:
         prog = program()
         replay_bin("release")
@@ -626,7 +660,20 @@ def run_obligations(obs, tier, jobs):
             r["note"] = ("!!! SOLVER DISAGREEMENT on query " + ",".join(bad) + " (" + " ".join(det) + ") -- treated as inconclusive; " + r["note"]).strip()
             log("[M] !!! SOLVER DISAGREEMENT", o.name, bad, det)
             continue
+        covers = [(q, v) for q, v, t, _ in verdicts if q.cover]
+        verdicts = [x for x in verdicts if not x[0].cover]
+        r["queries"] = len(verdicts)
+        vac = [q.name for q, v in covers if v == "unsat"]
+        if vac:
+            r["status"] = "error"
+            r["note"] = ("VACUOUS: the assumptions of " + ",".join(vac) + " are unsatisfiable (nothing is proved); " + r["note"]).strip("; ")
+            continue
+        und_cov = [q.name for q, v in covers if v != "sat"]
         sats = [(q, t) for q, v, t, _ in verdicts if v == "sat"]
+        if und_cov and not sats:
+            r["status"] = "unknown"
+            r["note"] = ("vacuity check undecided for " + ",".join(und_cov) + "; " + r["note"]).strip("; ")
+            continue
         if sats:
             _handle_sat(o, b, sats, r, tier, jobs, prog)
             continue
@@ -679,6 +726,8 @@ def _handle_sat(o, b, sats, r, tier, jobs, prog):
     if b.lift:
         try:
             rp = b.lift(q, env)
+        except NotLiftable as e:
+            r["note"] = f"{e}; " + r["note"]
         except Exception as e:  # noqa
             r["note"] = f"lift failed: {e}; " + r["note"]
     if rp is None and b.relift:
@@ -761,4 +810,6 @@ def main(argv=None):
 
 
 if __name__ == "__main__":
-    sys.exit(main())
+    # run through the imported module so that there is exactly one instance of the caches / exception classes
+    from vf.mirsmt import runner as _r
+    sys.exit(_r.main())
